@@ -9,28 +9,28 @@ def P(quick_runs, thorough_runs, level="exploration", quick_budget=40, thorough_
 
 PROPS = {
     "C06": P(160000, 3000000, expect_reach=["c06.gates_released_after_join_issued"],
-             assumptions=["blocked units are released by an external thread only after the join/finalize that has to wait for them was issued; nobody pushes to a pool whose only stream is being joined"]),
+             assumptions=["blocked units are released by an external thread only after the join/finalize that has to wait for them was issued; nobody pushes to a pool whose only stream is being joined", "scenario yield_to-race: as for C11"]),
     "C07": P(300000, 6000000, expect_reach=["pool.pop_gives_up_became_empty", "lin.decided", "pool.empty_pops", "pool.blocking_pop_got_unit"],
              assumptions=["clients respect the producer/consumer counts of the access mode; ABT_pool_remove is issued only by the sole consumer for a unit whose push has returned (API precondition: the unit is in the pool)",
                           "histories <= 48 operations, search capped at 1e6 nodes (undecided histories are counted, never passed or failed)"]),
     "C08": P(160000, 3000000, expect_reach=["c08.lapping_entries"], assumptions=["ABT_barrier_reinit is called only while nobody waits (API precondition)"]),
     "C09": P(160000, 3000000, expect_reach=["c09.future_reset_rounds", "c09.waits_blocked_before_set", "c09.tests_ready"], assumptions=["ABT_eventual_reset is called only at quiescent points (no waiter, no setter in flight)"]),
     "C10": P(160000, 3000000, expect_reach=["c10.reads_sharing_the_lock"], assumptions=["lockers unlock what they locked; finite programs (no reader stream that starves a writer for ever)"]),
-    "C11": P(160000, 3000000, expect_reach=["c11.resumes", "c11.yield_to", "c11.suspend_to", "c11.resume_yield_to", "c11.resume_suspend_to", "c11.exit_to", "c11.resume_exit_to", "c11.create_to", "c11.revive_to", "c11.thread_yield_to"],
-             assumptions=["directed-switch targets satisfy the documented preconditions (popped from their pool / observed BLOCKED / TERMINATED); ABT_thread_yield_to only with a pool served by the calling stream"]),
+    "C11": P(160000, 3000000, expect_reach=["c11.resumes", "c11.yield_to", "c11.suspend_to", "c11.resume_yield_to", "c11.resume_suspend_to", "c11.exit_to", "c11.resume_exit_to", "c11.create_to", "c11.revive_to", "c11.thread_yield_to", "c11.thread_yield_to_race_refused"],
+             assumptions=["directed-switch targets satisfy the documented preconditions (popped from their pool / observed BLOCKED / TERMINATED); in the chain scenario ABT_thread_yield_to only with a pool served by the calling stream", "scenario yield_to-race goes beyond the documented precondition of ABT_thread_yield_to (target in its pool): other streams may pop the target meanwhile; it relies on the implementation's re-check under the pool lock, which refuses with an error"]),
     "C02": P(160000, 3000000, expect_reach=["c02.resumes", "c02.yield_to", "c02.suspend_to", "c02.resume_yield_to", "c02.exit_to", "c02.create_to", "c02.revive_to"],
              assumptions=["as C11; canaries cover rbx, rbp, r12-r15, MXCSR rounding/masks and the x87 control word"]),
     "C12": P(160000, 3000000, expect_reach=["cancel.at_pop", "c12.state_transitions_observed", "c12.cancel_before_start", "c12.revives"],
              assumptions=["one driver per unit issues create/cancel/join/revive/free sequentially (cancel races with the target's execution, not with its own join); the cancel deadline is checked at ABT_thread_yield and at a suspend that is resumed through a pool, not for direct hand-over resumes"]),
-    "C13": P(160000, 3000000, expect_reach=["migrate.at_pop", "migrate.request_handled", "c13.requests_via_xstream_or_sched", "c13.requests_checked_must_be_honoured", "c13.requests_overlapping_scheduling_point"],
+    "C13": P(160000, 3000000, expect_reach=["migrate.at_pop", "migrate.request_handled", "c13.requests_via_xstream_or_sched", "c13.migrate_any_stream_checked", "c13.requests_checked_must_be_honoured", "c13.requests_overlapping_scheduling_point"],
              assumptions=["per unit, requests come either from the unit itself or from one issuer, so accepted requests are totally ordered; a request overlapping a scheduling point may be honoured at that point or the next"]),
     "C14": P(160000, 3000000, expect_reach=["unit.tombstone_reused", "c14.translation_queries", "c14.units_created", "c14.handles_recycled"],
              assumptions=["unit handles are crafted integers that all hash to one bucket of the 256-entry table, recycled LIFO in half of the runs; translations are queried only for units that cannot move or be freed meanwhile (the caller's own unit, or a suspended ULT)"]),
-    "C15": P(160000, 3000000, expect_reach=["mempool.new_page", "mempool.bucket_from_global_lifo", "c15.mempool_allocs", "c15.mempool_cross_thread_frees"],
+    "C15": P(160000, 3000000, expect_reach=["mempool.new_page", "mempool.bucket_from_global_lifo", "c15.mempool_allocs", "c15.mempool_cross_thread_frees", "c15.ext_frees_of_user_stack_ults"],
              assumptions=["the white-box driver uses ABTI_mem_pool_* exactly as abti_mem.h does (one local pool per simulated thread, blocks may be freed to any local pool of the same global pool)",
                           "stack sizes 16 KiB..2 MiB (+50%) in the quick tier, up to 16 MiB in the thorough tier; with stack guards enabled the two lowest pages are not written"]),
-    "C16": P(160000, 3000000, expect_reach=["key.chain_append", "key.table_creation_race_lost", "c16.remote_sets_while_owner_runs", "c16.destructor_calls"],
-             assumptions=["every (unit,key) pair has a single writer (the owner or one remote setter), so the expected value is unique; ABT_KEY_TABLE_SIZE is randomised in {1,...,64}"]),
+    "C16": P(160000, 3000000, expect_reach=["key.chain_append", "key.table_creation_race_lost", "c16.remote_sets_while_owner_runs", "c16.destructor_calls", "c16.revives"],
+             assumptions=["every (unit,key) pair has a single writer (the owner or one remote setter), so the expected value is unique; ABT_KEY_TABLE_SIZE is randomised in {1,...,64}", "a revived unit is the same work unit: its values survive ABT_thread_revive / ABT_task_revive and are destroyed at the free"]),
     "C17": P(160000, 3000000, expect_reach=["c17.lin_decided"],
              assumptions=["each stream is freed / re-ranked only by the actor that created it; ABT_xstream_set_main_sched is applied to a joined stream or to the caller's own stream",
                           "rank histories <= 24 operations, search capped at 2e6 nodes"]),
@@ -39,7 +39,7 @@ PROPS = {
                           "a call may succeed despite the injected failure when a documented fall-back exists (other large-page type, non-strict stack guard); it must then be complete"]),
     "C19": P(160000, 3000000, expect_reach=["waitlist.timeout_unlink_head", "waitlist.timeout_unlink_middle", "waitlist.timeout_unlink_tail", "waitlist.deadline_passed_but_signalled", "c19.timeouts", "c19.signal_with_certain_waiter"],
              assumptions=["deadlines are relative to the run's virtual time scale; TIMEDOUT is checked against the virtual clock, never against elapsed steps"]),
-    "C01": P(140000, 3000000, expect_reach=["sched.stacked_scheduler_stops", "c01.stacked_sched_finish_requests"], assumptions=["units that create other units finish before streams are joined (a creation racing with the join of the only stream serving the target pool is the program's error)"]),
+    "C01": P(140000, 3000000, expect_reach=["sched.stacked_scheduler_stops", "c01.stacked_sched_finish_requests", "c01.late_cancels_before_revive"], assumptions=["units that create other units finish before streams are joined (a creation racing with the join of the only stream serving the target pool is the program's error)"]),
     "C03": P(160000, 3000000, expect_reach=["join.suspend_join", "join.exiting_ult_waits_for_p_link", "join.yield_loop_for_tasklet", "join.futex_wait", "join.fallback_yield_loop_target_terminating"], assumptions=["one joiner per target (API contract); a tasklet joiner only joins targets served by other streams; unbounded yield loops are kept where the strict pool priority of the predefined schedulers cannot starve the awaited unit"]),
     "C05": P(160000, 3000000, expect_reach=["c05.signal_with_certain_waiter", "c05.broadcast_with_certain_waiters"],
              assumptions=["waiters and in-mutex signallers follow the monitor discipline; no oracle encodes timing"]),
